@@ -711,6 +711,13 @@ def emit_fn(u, file, nm, block):
         cur_info = None
 
     for (txt, off, extra) in out:
+        if extra is None:
+            # `ghost` / `tracked` are contextual keywords of Verus' `let`; a Rust local of that name is written as a raw identifier
+            # (the same identifier to rustc)
+            txt2 = re.sub(r"\blet(\s+mut)?\s+(ghost|tracked)\b(?=\s*[=:;])", lambda m_: "let%s r#%s" % (m_.group(1) or "", m_.group(2)), txt)
+            if txt2 != txt:
+                u.edits.append("%s::%s: local named `ghost` / `tracked` written as a raw identifier in its `let` (Verus keyword)" % (file, nm))
+                txt = txt2
         lines = txt.split("\n")
         for k, l in enumerate(lines):
             if k > 0:
